@@ -68,9 +68,11 @@ def run(ctx):
     from ..rng import gen
     extras = [('cf1d', dict(ny=91, nx=92, bounds='var')),
               # a SHOC grid whose native indexes need 17 characters as JSON, e.g. ["face", 10, 100] (dBase field widths)
-              ('shoc_standard', dict(nj=12, ni=104))]
+              ('shoc_standard', dict(nj=12, ni=104)),
+              # more than 100 000 cells: recorded indexes need six digits
+              ('cf1d', dict(ny=3, nx=33400, bounds='var'))]
     if ctx.thorough:
-        extras += [('cf1d', dict(ny=3, nx=33400, bounds='var')), ('cf1d', dict(ny=3, nx=33407, bounds='none'))]
+        extras += [('cf1d', dict(ny=3, nx=33407, bounds='none'))]
     for extra, (econv, kw) in enumerate(extras):
         case = total + extra
         if ctx.only_case is not None and ctx.only_case != case:
